@@ -13,6 +13,7 @@ import json
 import os
 import random
 import re
+import resource
 import shutil
 import signal
 import subprocess
@@ -131,11 +132,22 @@ def ubsan_fatal_kind(err):
     return None
 
 
+# UBSan's vptr check probes the object's memory through a pipe(); when the tool has run out of file descriptors
+# (recursive #include ends that way) the probe fails and UBSan reports "invalid vptr ... <memory cannot be printed>"
+# for a perfectly valid std::cerr.  That is the sanitizer's failure, not the tool's.
+VPTR_ARTEFACT = re.compile(r"runtime error: (?:cast to virtual base|member call on|member access within|downcast of) "
+                           r"address 0x[0-9a-f]+ which does not point to an object of type [^\n]*\n"
+                           r"0x[0-9a-f]+: note: object has invalid vptr\n<memory cannot be printed>")
+
+
 def classify(r):
     """-> None when the process ended with an ordinary exit, else the `how` string of the crash."""
     err = r.err
     if r.timed_out:
         return "hang"
+    if VPTR_ARTEFACT.search(err) and len(UBSAN_LINE.findall(err)) == len(UBSAN_RECOVERABLE.findall(err)) + 1 \
+            and "AddressSanitizer" not in err:
+        return "sanitizer-artefact"
     m = re.search(r"terminate called after throwing an instance of '([^']+)'", err)
     if m:
         return "uncaught:" + m.group(1)
@@ -267,6 +279,13 @@ def _cpu_used(pid):
         return 0.0
 
 
+def _child_limits():
+    # the usual soft limit of a login shell; recursive #include ends when open() fails (the host's limit is 20000,
+    # which only makes that slower) and core files are never wanted
+    resource.setrlimit(resource.RLIMIT_NOFILE, (1024, 1024))
+    resource.setrlimit(resource.RLIMIT_CORE, (0, 0))
+
+
 def run_cpu(argv, cpu, cwd, capture_out=False):
     """Run a child under a watchdog on its **CPU time** (load on the shared host must not create hangs):
     when the child has used `cpu` seconds it gets SIGABRT, so that ASan (handle_abort=1) prints where it was;
@@ -278,7 +297,7 @@ def run_cpu(argv, cpu, cwd, capture_out=False):
     t0 = time.time()
     try:
         p = subprocess.Popen(argv, stdin=subprocess.DEVNULL, stdout=subprocess.DEVNULL, stderr=subprocess.PIPE, env=e,
-                             cwd=cwd, start_new_session=True)
+                             cwd=cwd, start_new_session=True, preexec_fn=_child_limits)
     except OSError as ex:
         raise core.HarnessError("cannot start %r: %s" % (argv[0], ex))
     timed_out = False
@@ -360,6 +379,10 @@ def exec_input(b, inp, d, res=None):
         if nw:
             res.count("diagnostics_warning", nw)
     how = classify(r)
+    if how == "sanitizer-artefact":
+        if res is not None:
+            res.count("sanitizer_artefact_vptr_fd_exhaustion")
+        return Outcome(None, "sanitizer-artefact", r)
     if how is not None:
         if how == "hang":
             key = "hang:" + hang_signature(r.err)
